@@ -74,6 +74,10 @@ GROUPS = [
      dict(SMALL, ListTypes={"bullet"}, Shapes={"lists"}, FreshC={True}), 4, 5),
     ("registries2", ["AddListItem", "AddNote", "RemoveNote", "Reopen", "OpenForeign", "Save"],
      dict(SMALL, ListTypes={"bullet", "number"}, Shapes={"lists", "listslow"}, FreshC={True, False}), 0, 4),
+    # two documents alive in one process, each with its own notes / lists, operations interleaved (the kind of note
+    # rotates with the seed in the quick tier)
+    ("twodocs", ["AddNote", "RemoveNote", "AddListItem", "Switch", "Save"],
+     dict(SMALL, ListTypes={"bullet"}, NoteKinds={"fn"}), 4, 5),
     ("tables", ["AddStyle", "ApplyTableStyle", "CreateCustomTableStyle", "RemoveStyle", "Reopen", "OpenForeign", "Save"],
      dict(SMALL, AddIds={"TS1"}, RmIds={"TS1", "ab"}, Tpls={"TableGrid", "TableColorful2"}, TblIds={"ab", "TS1", "FT1"}, Shapes={"tbl"}, FreshC={False}), 0, 3),
 ]
@@ -115,6 +119,8 @@ def pipeline(ctx, cases_by=None):
             d2 = dq if q else dt
             if d2 == 0:
                 continue
+            if name == "twodocs":
+                args = dict(args, NoteKinds={"fn", "en"} if not q else ({"fn"} if ctx.seed % 2 else {"en"}))
             allc += ctx.tlc_gen("Defs_MC.tla", gencfg(ctx, "gen_bfs_%s.cfg" % name, ops, args, d2), "bfs" + name)
             depths[name] = d2
         ctx.exhaustive = True
